@@ -16,13 +16,13 @@ EOLS = ['', '', '', '\n', ' \n', '\t \n', '  ', '\n\n', '\r\n', ' \t\n ']
 SENT = {'va': '⟦A⟧', 'vb': '⟦B⟧'}
 
 
-def literal(max_frags=6):
-    return st.lists(st.sampled_from(FRAGS), min_size=0,
+def literal(max_frags=6, frags=None):
+    return st.lists(st.sampled_from(frags or FRAGS), min_size=0,
                     max_size=max_frags).map(''.join)
 
 
-def text_node(max_frags=6):
-    return literal(max_frags).map(lambda s: dict(k='text', s=s))
+def text_node(max_frags=6, frags=None):
+    return literal(max_frags, frags).map(lambda s: dict(k='text', s=s))
 
 
 def eols(n):
@@ -156,7 +156,7 @@ class Config:
 
     def __init__(self, kinds, max_depth=3, max_items=4, literals=True,
                  eol=True, var_names=None, cond_refs=None, probes=0,
-                 frags=6, exprs=True):
+                 frags=6, exprs=True, frag_list=None):
         self.kinds = kinds
         self.max_depth = max_depth
         self.max_items = max_items
@@ -166,6 +166,7 @@ class Config:
         self.cond_refs = cond_refs
         self.probes = probes
         self.frags = frags
+        self.frag_list = frag_list
         self.exprs = exprs
 
 
@@ -243,7 +244,7 @@ def node_of(cfg, k, depth, scope):
     if k in EXTRA_KINDS:
         return EXTRA_KINDS[k](cfg, depth, scope)
     if k == 'text':
-        return text_node(cfg.frags) if cfg.literals else \
+        return text_node(cfg.frags, cfg.frag_list) if cfg.literals else \
             st.sampled_from(['a', 'b ', '\n', 'x\n']).map(
                 lambda s: dict(k='text', s=s))
     if k == 'var':
